@@ -188,3 +188,24 @@ def fusion_variants(tree: ast.AST) -> Iterator[Tuple[str, Dict]]:
         outer.func.value = inner.func.value
         outer.args[0] = ast.Lambda(args=la.args, body=newbody)
         yield ast.unparse(ast.fix_missing_locations(t2)), {"fused": outer.func.attr, "site": k}
+
+
+# ------------------------------------------------------------------ the same query as a DAG: equal sub-expressions are ONE node object
+def share_equal_subtrees(tree: ast.AST):
+    """Returns (tree', number of re-uses): every group of structurally equal expression sub-trees is replaced by one shared
+    node object (what a front end that builds queries from re-used pieces hands over).  The query text is unchanged."""
+    table = {}
+    hits = [0]
+
+    class T(ast.NodeTransformer):
+        def visit(self, node):
+            node = self.generic_visit(node)
+            if isinstance(node, ast.expr):
+                key = ast.dump(node)
+                if key in table:
+                    if table[key] is not node:
+                        hits[0] += 1
+                    return table[key]
+                table[key] = node
+            return node
+    return T().visit(tree), hits[0]
